@@ -147,7 +147,72 @@ func (w *World) pwString(e Event) string {
 	case "prefix":
 		return PwPool[0][:len(PwPool[0])-1]
 	}
+	// spellings derived from the account's CURRENT password: only the exact string is the credential
+	if strings.HasPrefix(e.Junk, "own:") {
+		if cur := w.currentPassword(e.Pid); cur != "" {
+			switch strings.TrimPrefix(e.Junk, "own:") {
+			case "lead":
+				return " " + cur
+			case "trail":
+				return cur + " "
+			case "nl":
+				return cur + "\n"
+			case "tab":
+				return "\t" + cur
+			case "case":
+				return swapCase(cur)
+			case "twice":
+				return cur + cur
+			}
+		}
+	}
 	return "Zz9?wrong-password"
+}
+
+// currentPassword finds, among the passwords the harness has ever typed, the one the account's stored hash accepts.
+func (w *World) currentPassword(pid string) string {
+	u := w.In.Store.Peek(PidPool[pid])
+	if u == nil || u.Password == "" {
+		return ""
+	}
+	for _, p := range PwPool {
+		if bcrypt.CompareHashAndPassword([]byte(u.Password), []byte(p)) == nil {
+			return p
+		}
+	}
+	return ""
+}
+
+func swapCase(s string) string {
+	b := []byte(s)
+	for i, c := range b {
+		switch {
+		case c >= 'a' && c <= 'z':
+			b[i] = c - 32
+		case c >= 'A' && c <= 'Z':
+			b[i] = c + 32
+		}
+	}
+	return string(b)
+}
+
+// padded / re-cased spellings of a genuine one-time secret (OTP, recovery code)
+func respell(genuine, junk string) string {
+	switch strings.TrimPrefix(junk, "own:") {
+	case "lead":
+		return " " + genuine
+	case "trail":
+		return genuine + " "
+	case "nl":
+		return genuine + "\n"
+	case "tab":
+		return "\t" + genuine
+	case "case":
+		return swapCase(genuine)
+	case "twice":
+		return genuine + genuine
+	}
+	return genuine + "x"
 }
 
 func flipBit(raw []byte, n int) []byte {
@@ -299,6 +364,17 @@ func (w *World) BuildReq(e Event) Req {
 		rq.Path = "/auth/otp/login"
 		form["email"] = pid
 		form["password"] = pick(w.otp, e.Tok, e.Junk)
+		if e.Tok <= 0 && strings.HasPrefix(e.Junk, "own:") {
+			// a live one-time password of this account, respelled
+			if u := w.In.Store.Peek(pid); u != nil && u.OTPs != "" {
+				for _, o := range w.otp {
+					if strings.Contains(u.OTPs, Hash512(o)) {
+						form["password"] = respell(o, e.Junk)
+						break
+					}
+				}
+			}
+		}
 		if e.Junk == "hash" {
 			if u := w.In.Store.Peek(pid); u != nil {
 				form["password"] = u.OTPs
@@ -734,12 +810,12 @@ func (w *World) Step(e Event) (RespObs, *Req, Resp) {
 		w.junkN++
 		switch {
 		case (e.Act == "LoginPost" || e.Act == "RegisterPost") && e.Pw <= 0 && e.Valid:
-			e.Junk = []string{"wrong", "empty", "hash", "prefix", "nul", "long"}[w.junkN%6]
+			e.Junk = []string{"wrong", "empty", "hash", "prefix", "nul", "long", "own:lead", "own:trail", "own:nl", "own:tab", "own:case", "own:twice"}[w.junkN%12]
 		case (e.Act == "ConfirmGet" || e.Act == "RecoverEnd") && e.Tok <= 0:
 			e.Junk = []string{"garbage", "empty", "flip:0", "flip:511", "flip:256", "trunc", "ext", "trail", "splice", "stored", "zero",
 				"sfx:dot", "sfx:amp", "sfx:space", "sfx:nul", "sfx:dup", "sfx:paren", "pfx:space"}[w.junkN%18]
 		case e.Act == "OtpLoginPost" && e.Tok <= 0:
-			e.Junk = []string{"garbage", "empty", "hash"}[w.junkN%3]
+			e.Junk = []string{"garbage", "empty", "hash", "own:lead", "own:trail", "own:nl", "own:case", "own:twice"}[w.junkN%8]
 		case e.Act == "EmailVerifyEnd" && e.Tok <= 0:
 			e.Junk = []string{"garbage", "empty", "missing"}[w.junkN%3]
 		case e.Act == "OAuthCallback" && e.Tok <= 0:
